@@ -557,7 +557,8 @@ func init() {
 
 func c09Race(x *explore.X, pr c09race) {
 	qa := packet.QOS(1 + vrt.Choose(2, "qos-a"))
-	qb := packet.QOS(vrt.Choose(3, "qos-b"))
+	opB := vrt.Choose(5, "op-b") // publish q0/q1/q2, subscribe, unsubscribe
+	qb := packet.QOS(opB % 3)
 	vrt.Quiet(true)
 	n := &net{x: x}
 	sess := &recSession{MemorySession: session.NewMemorySession()}
@@ -600,6 +601,11 @@ func c09Race(x *explore.X, pr c09race) {
 				sa.ID = p.ID
 				sa.ReturnCodes = []packet.QOS{1}
 				cn.B.Send(sa, false)
+			case *packet.Unsubscribe:
+				acked[p.ID] = true
+				ua := packet.NewUnsuback()
+				ua.ID = p.ID
+				cn.B.Send(ua, false)
 			}
 		}
 	}()
@@ -622,7 +628,34 @@ func c09Race(x *explore.X, pr c09race) {
 	}
 	pub("a", qa)
 	if pr.Pubs > 1 {
-		pub("b", qb)
+		switch opB {
+		case 3:
+			calls++
+			go func() {
+				f, err := cl.Subscribe("s", 1)
+				returned++
+				if err == nil {
+					w := watch("subscribe", f)
+					w.what = "subscribe"
+					w.qos = 1
+					ws = append(ws, w)
+				}
+			}()
+		case 4:
+			calls++
+			go func() {
+				f, err := cl.Unsubscribe("s")
+				returned++
+				if err == nil {
+					w := watch("unsubscribe", f)
+					w.what = "unsubscribe"
+					w.qos = 1
+					ws = append(ws, w)
+				}
+			}()
+		default:
+			pub("b", qb)
+		}
 	}
 	closerDone := pr.Closer == "none"
 	switch pr.Closer {
@@ -692,7 +725,7 @@ func runC09(r *report.Report) {
 	for _, closer := range []string{"none", "close", "drop", "disconnect"} {
 		js, _ := json.Marshal(c09race{Closer: closer, Pubs: 2})
 		st := explore.Explore(explore.Config{Harness: "C09.race", Params: string(js), Bound: rb, Workers: report.Workers(), Deadline: r.Deadline()})
-		r.AddExploration("race-"+closer, "schedule", fmt.Sprintf("2 concurrent Publish calls (QoS 1/2 x 0/1/2) against an immediately acknowledging broker thread, third party: %s; every schedule within delay bound %d", closer, rb), st,
+		r.AddExploration("race-"+closer, "schedule", fmt.Sprintf("a Publish (QoS 1/2) racing with a second call (Publish QoS 0/1/2, Subscribe or Unsubscribe) against an immediately acknowledging broker thread, third party: %s; every schedule within delay bound %d", closer, rb), st,
 			"one execution = one schedule; all calls return, futures resolve (and complete when nothing interferes); non-trivial = executions", "raced")
 	}
 	for _, cf := range cfgs {
